@@ -470,7 +470,9 @@ def _finam_crash(stderr):
 def run_bounded(b, tier, seed):
     cmd = [VENV_PY, os.path.join(ROOT, b["script"]), "--tier", tier, "--seed", str(seed)] + b.get("args", [])
     try:
-        out = subprocess.run(cmd, capture_output=True, text=True, timeout=b.get("timeout", 3000),
+        # (on the unchanged tree every stand-in finishes within a minute in the quick tier: a change that makes the real code loop
+        # must not hold the check for an hour)
+        out = subprocess.run(cmd, capture_output=True, text=True, timeout=min(b.get("timeout", 3000), 900 if tier == "quick" else 3000),
                              env={**os.environ, "PYTHONPATH": os.path.join(os.environ.get("VERIF_REPO", "/repo"), "src")})
     except subprocess.TimeoutExpired:
         return {"name": b["name"], "error": "timeout"}
